@@ -12,6 +12,7 @@ from typing import Optional
 
 from ..model import AnalysisError, ClassInfo, FuncInfo, ModuleInfo, dotted, last_attr, norm_text, walk_no_nested
 from ..rules import axis_registry as reg
+from .c35 import DATACLASS_RULE, dataclass_rules
 
 ARR = "abtem.array"
 
@@ -106,6 +107,11 @@ def run(ctx) -> None:
              "({tag key: tag, value key: [...]}) is recognised by the reader under the same tag key, tag literal and "
              "value key and rebuilt with the constructor of the type the writer tested for; writer and reader both "
              "recurse into list and dict (and into the tagged value), so nested tuples survive")
+    ctx.rule("R-SCALARARM", "the scalar arms of encode_types keep JSON-native Python scalars as they are: with the "
+             "subtype facts bool < int, np.float64 < float, an arm `isinstance(obj, (.., T, ..)): return C(obj)` must "
+             "not receive a value of a proper subtype S of T for which C changes the Python type (bool through int(), "
+             "bool through float()) unless an earlier arm already took S; flags written as True/False must not "
+             "come back as 1/0 (`axis._main is True` decides which axes are scan axes)")
     ctx.rule("R-METAKEYS", "the keys the writer adds to the user's metadata dict (_metadata_to_dict: axes, "
              "data_origin, type; to_zarr: kwargs) are exactly the keys _from_zarr_canonical pops before handing the "
              "rest back as metadata; a pop without default needs a key that is always written")
@@ -117,6 +123,7 @@ def run(ctx) -> None:
     ctx.rule("R-REGISTRY", reg.__doc__.split("(registry)")[1].split("(type key)")[0])
     ctx.rule("R-TYPEKEY", "axis_to_dict stores the class name under the key axis_from_dict looks up and strips; no "
              "axis class has a field of that name")
+    ctx.rule("R-DATACLASS", "(shared with C35, the zarr writer stores every axis through axis_to_dict) " + DATACLASS_RULE)
     ctx.rule("R-TYPE-REGISTRY", "the writer stores type(obj).__name__; the reader resolves it with getattr(<module>, "
              "name): every concrete ArrayObject subclass of the package must be an attribute of that module under "
              "its own name, else the file it writes cannot be read back as the same type")
@@ -356,11 +363,41 @@ def run(ctx) -> None:
               f"ensemble axes are packed with {_key_codec(bp, 'ensemble_axes_metadata')} and unpacked with "
               f"{_key_codec(bu, 'ensemble_axes_metadata')}", key_detail="codec")
 
+    # ---------------- R-SCALARARM
+    SUBTYPES = {"int": ["bool"], "float": [], "numbers.Number": ["bool"], "numbers.Integral": ["bool"],
+                "Number": ["bool"], "object": ["bool"]}
+    CONVERT_CHANGES = {("bool", "int"), ("bool", "float"), ("bool", "str"), ("bool", "complex")}
+    taken: set[str] = set()
+    n_arm = 0
+    for ts, test, body in earms:
+        if ts is None:
+            continue
+        rets = [r for st in body for r in ast.walk(st) if isinstance(r, ast.Return) and r.value is not None]
+        conv = None
+        if len(rets) == 1 and isinstance(rets[0].value, ast.Call) and isinstance(rets[0].value.func, ast.Name) and \
+                len(rets[0].value.args) == 1 and dotted(rets[0].value.args[0]) == eobj:
+            conv = rets[0].value.func.id
+        n_arm += 1
+        lost = []
+        for t in ts:
+            for sub in SUBTYPES.get(t, []):
+                if sub not in taken and sub not in ts and conv is not None and (sub, conv) in CONVERT_CHANGES:
+                    lost.append((sub, t, conv))
+        ctx.check(not lost, "R-SCALARARM", f"{clist.qualname}.encode_types:arm {'|'.join(ts)}", clist.loc(test),
+                  f"arm for {ts} {'converts with ' + conv + '()' if conv else 'recurses / tags'}; no JSON-native subtype "
+                  "is re-typed",
+                  "; ".join(f"a Python {sub} is an instance of {t} and reaches `return {c}(obj)` before any arm for {sub}: "
+                            f"True/False are written as {c}(True)/{c}(False) and do not come back as bool"
+                            for sub, t, c in lost), key_detail="scalar-arm")
+        taken |= set(ts)
+    ctx.require(n_arm >= 5, f"R-SCALARARM examined only {n_arm} arms of encode_types")
+
     # ---------------- R-REGISTRY / R-TYPEKEY (shared with C35)
     reader = reg.analyse_reader(repo, repo.function(reg.AXES_MOD, "axis_from_dict"))
     n = reg.check_registry(ctx, [reader])
     ctx.require(n >= 10, f"R-REGISTRY examined only {n} classes")
     reg.check_type_key(ctx, [repo.function(reg.AXES_MOD, "axis_to_dict")], [reader])
+    dataclass_rules(ctx, repo, writers=[repo.function(reg.AXES_MOD, "axis_to_dict")])
 
     # ---------------- R-TYPE-REGISTRY
     ctx.require("type" in written and isinstance(written["type"], ast.Attribute)
